@@ -2327,7 +2327,7 @@ impl IndexedChangeSet {
 									&mut num_removed,
 									writer,
 								)?;
-								log::debug!(target: "parity-db", "Dereferenced tree {:?}, removed {}", &key[0..3], num_removed);
+								log::debug!(target: "parity-db", "Dereferenced tree {:?}, removed {}", &key[..key.len().min(3)], num_removed);
 							}
 						}
 					}
